@@ -176,6 +176,18 @@ CHECKS = {
         "finding (sign of negative base ^ negative even exponent, pinned by EvaluateTest) is classified by the oracle itself.",
    technique="TLA+ expression semantics with all documented parse trees; TLC batch oracle over recorded evaluations; sanitizers for traps",
    design="6 (C04), appendix E.5"),
+ "C02": dict(
+   text="The documented expansion is an explicit TLA+ specification (QTemplate.Render over an AST and a document, written from "
+        "Documentation/Template.md; it uses QExpr for math / conditions, QEscape for {var:}, GroupBy / Sort for loops). Random ASTs over "
+        "the documented grammar (paths with keys, indices and loop variables at every nesting level, raw, math, super variables with "
+        "sub-tags, inline if in both attribute orders / quote kinds, if / else-if / else in all documented spellings, loops with set / "
+        "value / group / sort, nesting <= 3) are unparsed to text and rendered by the real engine from exact-size buffers into a non-empty "
+        "stream, twice, in three character widths under ASan/UBSan; TLC judges every event: output = Render(ast, doc), value untouched, "
+        "only the stream's tail changed, widths agree.",
+   note="sampled ASTs (6k quick / 40k thorough); documentation-silent situations are not generated (listed in the evidence assumptions); "
+        "expressions outside QExpr's exact domain make an event unjudged.",
+   technique="TLA+ reference interpreter of the template language; TLC batch oracle over recorded renders of generated ASTs",
+   design="6 (C02), appendix E.4/G"),
 }
 PENDING = "not yet claimed in this revision: its specification and conformance harness are still being built (DESIGN.md section 6 describes the plan)"
 m = {
